@@ -4,8 +4,11 @@
 //!
 //! usage: harness <stream> <tier> <seed>
 //! output: one line per case: REQUEST \t IMPL-RESPONSE \t TAGS \t DISPLAY
+mod ctxgen;
+mod prog;
 mod rng;
 mod s_c08;
+mod s_smoke;
 mod wire;
 
 use std::io::Write;
@@ -53,6 +56,7 @@ fn main() {
     };
     match stream {
         "C08" => s_c08::run(&mut em, thorough, seed),
+        "smoke" => s_smoke::run(&mut em),
         _ => {
             eprintln!("unknown stream {}", stream);
             std::process::exit(2);
